@@ -262,8 +262,12 @@ def _pred(values, k, mode, cmin, cmax, dv, weights, red, result, error, pwl_ok):
     return None if error else "invalid mode / weight_reduction accepted"
   if weights is not None:
     kept = [w for v, w in zip(values, weights) if dv is None or v != dv]
-    if any(w < 0 for w in kept) or sum(kept) <= 0:
-      return None  # outside the hypothesis (non-negative weights with positive sum)
+    if any(w < 0 for w in kept):
+      return None  # negative example weights are outside the statement
+    if sum(kept) <= 0:
+      # all weights zero: the statement ("returns without error for every finite data array with optional example
+      # weights") covers it, the code does not: known finding D67 (theorem hypothesis weights_ok)
+      return ("compute_keypoints raised with example weights that sum to zero: %s" % error) if error else None
   if not distinct:
     return None  # no data at all
   if error:
@@ -534,3 +538,11 @@ def extra(ctx, stats):
     stats["direct_cases_with_exact_rounding_tie"] = len(no_tie_bad)
     stats["direct_cases_where_float_resolved_a_tie_differently"] = len(exact_bad)
   return []
+
+
+def _d67(case):
+  return (case.pred_fail or "").startswith("compute_keypoints raised with example weights that sum to zero") or (
+      "feature" in (case.pred_fail or "") and "raised with example weights that sum to zero" in (case.pred_fail or ""))
+
+
+KNOWN_CLASSES = dict(globals().get("KNOWN_CLASSES", {}), weights_sum_zero=_d67)
